@@ -9,7 +9,7 @@
 (* bounds the sub-optimality of M.  logdet enters through the (witnessed   *)
 (* and verified) Cholesky factor and a table of libm logs.                 *)
 (***************************************************************************)
-EXTENDS DyMat
+EXTENDS DyMat, FiniteSets
 
 RECURSIVE SumMatSeq(_, _, _)
 SumMatSeq(f, i, d) == IF i > Len(f) THEN DM!ZeroMat(d, d) ELSE DM!MAdd(f[i], SumMatSeq(f, i + 1, d))
@@ -29,4 +29,21 @@ DualFeasible(W, E, alpha) ==
      IF i = j THEN W[i][j] = E[i][j] ELSE Leq(Abs(Sub(W[i][j], E[i][j])), alpha)
 IsCholesky(R, A) == /\ AllFinM(R) /\ Len(R) = Len(A) /\ (\A i \in 1..Len(R) : IsPos(R[i][i]))
                     /\ ApproxM(DM!Gram(R), A, 2, 2, MaxAbsM(A))
+
+(* ---- the documented prior M0 ------------------------------------------------------------------------------------ *)
+(* 'identity': M0 = I.  'covariance': M0^-1 = covariance of the DISTINCT points that occur in the pairs (a point      *)
+(* shared by several pairs counts once).  n(n-1) * cov = n SUM x x^T - (SUM x)(SUM x)^T exactly, no division.          *)
+RowSet(P) == {P[i] : i \in 1..Len(P)}
+SeqOfSet(S) == LET RECURSIVE F(_) F(s) == IF s = {} THEN <<>> ELSE LET x == CHOOSE x \in s : TRUE IN <<x>> \o F(s \ {x}) IN F(S)
+ScatterN(X) ==
+  LET n == Len(X)  d == Len(X[1])
+      s == [j \in 1..d |-> DM!Sum([i \in 1..n |-> X[i][j]])]
+  IN [a \in 1..d |-> [b \in 1..d |->
+        Sub(Mul(FromInt(n), DM!Sum([i \in 1..n |-> Mul(X[i][a], X[i][b])])), Mul(s[a], s[b]))]]
+IsCovariancePriorInverse(P0, pts) ==
+  LET X == SeqOfSet(RowSet(pts))
+      n == Len(X)
+      S == ScatterN(X)
+  IN n >= 2 /\ ApproxM(DM!MScale(FromInt(n * (n - 1)), P0), S, 2, 2, MaxAbsM(S))
+IsIdentity(A) == \A i \in 1..Len(A) : \A j \in 1..Len(A) : A[i][j] = (IF i = j THEN One ELSE Zero)
 =============================================================================
